@@ -36,6 +36,7 @@ pub struct Cfg {
     pub inh: Vec<Vec<usize>>,   // X.output inheritance
     pub svc_fail: Vec<usize>,   // services whose launch fails in this run
     pub gates: Vec<(String, usize)>, // (point, target): phases of incremental::run the driver holds
+    pub edit_only: Vec<usize>,  // if not empty: the only targets whose inputs the driver edits (directed watch scenarios)
     pub raw: Value,
 }
 
@@ -62,6 +63,7 @@ impl Cfg {
                 .as_array()
                 .map(|a| a.iter().map(|g| (g[0].as_str().unwrap().to_string(), g[1].as_u64().unwrap() as usize)).collect())
                 .unwrap_or_default(),
+            edit_only: usv(&v["edit_only"]),
             raw: v.clone(),
         }
     }
@@ -358,7 +360,7 @@ impl<'a> Run<'a> {
             for (t, a) in &self.tr.actors {
                 let i = Cfg::idx(t);
                 if a.launched && !a.exited && self.cfg.kind[i - 1] != "a" {
-                    if self.edits < self.max_changes {
+                    if self.edits < self.max_changes && (self.cfg.edit_only.is_empty() || self.cfg.edit_only.contains(&i)) {
                         v.push(format!("E:{}", t));
                     }
                     if self.notif_pending.contains(t) {
